@@ -29,8 +29,14 @@ use crate::run::{run_reader, run_slice, Verdict};
 /// Adversarial shapes: (bytes, class).
 pub fn adversarial(seed: u64, idx: usize, thorough: bool) -> (Vec<u8>, &'static str) {
     let mut rng = Rng::derive(seed, 0xc04a, idx as u64);
-    let deep = if thorough { 100_000 } else { 5_000 };
-    let deep_yaml = if thorough { 30_000 } else { 1_200 };
+    // The extreme depths are driven by the first few instances of each class only; the other
+    // instances vary depth and shape (a class repeated thousands of times with one input teaches
+    // nothing, and inputs nested 10^5 deep are slow in the formats that parse them quadratically).
+    let instance = idx / 17;
+    let extreme = instance < if thorough { 6 } else { 2 };
+    let deep = if extreme { if thorough { 100_000 } else { 5_000 } } else { 1 + rng.below(if thorough { 20_000 } else { 3_000 }) };
+    let deep_yaml = if extreme { if thorough { 30_000 } else { 1_200 } } else { 1 + rng.below(if thorough { 2_000 } else { 600 }) };
+    let shape = |rng: &mut Rng, default: crate::c18::Shape| if extreme { default } else { [crate::c18::Shape::Arrays, crate::c18::Shape::Maps, crate::c18::Shape::Alternating, crate::c18::Shape::Random(rng.next())][rng.below(4)] };
     match idx % 17 {
         16 => {
             // UTF-16/32 YAML whose UTF-8 re-encoding puts multi-byte characters on every
@@ -46,15 +52,37 @@ pub fn adversarial(seed: u64, idx: usize, thorough: bool) -> (Vec<u8>, &'static 
             let enc = crate::c07::ENCS[(idx / 17) % 4];
             (enc.encode(&text, (idx / 68) % 2 == 0), "reencoded_boundary")
         }
-        0 => (crate::c18::nested(Fmt::Json, crate::c18::Shape::Arrays, deep), "deep_json_arrays"),
-        1 => (crate::c18::nested(Fmt::Json, crate::c18::Shape::Maps, deep), "deep_json_maps"),
+        0 => {
+            let sh = shape(&mut rng, crate::c18::Shape::Arrays);
+            (crate::c18::nested(Fmt::Json, sh, deep), "deep_json_arrays")
+        }
+        1 => {
+            let sh = shape(&mut rng, crate::c18::Shape::Maps);
+            (crate::c18::nested(Fmt::Json, sh, deep), "deep_json_maps")
+        }
         // MessagePack nesting is cheap to refuse in every mode, so it always goes far
         // beyond what any stack could take if a limit were missing
-        2 => (crate::c18::nested(Fmt::Msgpack, [crate::c18::Shape::Alternating, crate::c18::Shape::Maps, crate::c18::Shape::Arrays][(idx / 16) % 3], 100_000.max(deep)), "deep_msgpack"),
-        3 => (crate::c18::nested(Fmt::Msgpack, crate::c18::Shape::KeyPosition, 100_000.max(deep)), "deep_msgpack_key_position"),
-        4 => (crate::c18::nested(Fmt::Toml, crate::c18::Shape::Arrays, deep), "deep_toml_arrays"),
+        2 => {
+            // the first instances 10^5 deep, the others around and beyond the limit with every header style
+            if instance < 8 {
+                (crate::c18::nested(Fmt::Msgpack, [crate::c18::Shape::Alternating, crate::c18::Shape::Maps, crate::c18::Shape::Arrays][instance % 3], 100_000), "deep_msgpack")
+            } else {
+                let d = *rng.pick(&[1000usize, 1022, 1023, 1024, 1025, 2000, 5000]);
+                let st = crate::c18::MSGPACK_STYLES[rng.below(crate::c18::MSGPACK_STYLES.len())];
+                let sh = shape(&mut rng, crate::c18::Shape::Alternating);
+                (crate::c18::nested_msgpack_styled(sh, d, st), "deep_msgpack")
+            }
+        }
+        3 => (crate::c18::nested(Fmt::Msgpack, crate::c18::Shape::KeyPosition, if instance < 8 { 100_000 } else { 1 + rng.below(3000) }), "deep_msgpack_key_position"),
+        4 => {
+            let sh = shape(&mut rng, crate::c18::Shape::Arrays);
+            (crate::c18::nested(Fmt::Toml, sh, deep), "deep_toml_arrays")
+        }
         5 => (crate::c18::nested(Fmt::Toml, crate::c18::Shape::Maps, deep.min(20_000)), "deep_toml_inline_tables"),
-        6 => (crate::c18::nested(Fmt::Yaml, crate::c18::Shape::Alternating, deep_yaml), "deep_yaml_flow"),
+        6 => {
+            let sh = shape(&mut rng, crate::c18::Shape::Alternating);
+            (crate::c18::nested(Fmt::Yaml, sh, deep_yaml), "deep_yaml_flow")
+        }
         7 => {
             // unclosed openers only
             let c = *rng.pick(&[b'[', b'{']);
@@ -158,7 +186,15 @@ pub fn run_case(input: &[u8], seed: u64, idx: usize) -> (u64, Vec<String>, u64) 
     let mut panics = vec![];
     let mut hangs = 0;
     let heavy = input.len() > 100_000;
+    // Text nested tens of thousands deep is refused in linear time by the JSON, TOML and MessagePack
+    // parsers, but libyaml needs time quadratic in the depth before it gives up (10 minutes for 10^5
+    // levels on this machine): such inputs go to the YAML parser - explicitly or through detection -
+    // only up to 3*10^4 levels, so that "terminates within the budget" never hangs on a loaded machine.
+    let very_deep_text = input.len() > 60_000 && matches!(input.first(), Some(b'[') | Some(b'{') | Some(b'a')) && input.iter().filter(|b| matches!(b, b'[' | b'{')).count() > 30_000;
     for from in ALL_FROM {
+        if very_deep_text && matches!(from, None | Some(Fmt::Yaml)) {
+            continue;
+        }
         for to in ALL {
             if heavy && rng.chance(2, 3) {
                 continue; // large adversarial inputs: a third of the combinations
